@@ -6,7 +6,7 @@ from __future__ import annotations
 
 import re
 
-from ..models import ModelEval, PyObj, Marker, Raised
+from ..models import ModelEval, Raised
 from ..peval import Model, Unsupported, ProgramRaised
 from ..poly import Poly, Rat, Fn
 from ..source import AnalysisError
@@ -588,8 +588,6 @@ def symsem(o):
     return Poly.sym(repr(o))
 
 
-def unit_vars(variables):
-    return {k: v for k, v in variables.items()}
 
 
 def run_block(tree, cq, variables, spec_records, subst, lmax=5, ilevel=2, domain_header=True, levelmax=None):
@@ -607,7 +605,7 @@ def run_block(tree, cq, variables, spec_records, subst, lmax=5, ilevel=2, domain
     r._attrs["meta"]["xbound"] = [Sym("xb0"), Sym("xb1"), Sym("xb2")]
     ncache = si("ncache")
     if cq == AMR:
-        from .core_models import RawTok
+        pass
         r._attrs["xcent"] = NdBuf("xcent")
     call(tree, hooks, ci, r, "read_level_header", ilevel, 8)
     if domain_header:
@@ -837,6 +835,14 @@ def check_leaf_rule(run, tree):
     check_conditions_contract(run, tree)
 
 
+class BufTok(Sym):
+    """the unit-carrying buffer Array of a variable; its raw parts are other objects (a predicate such as `x > 1*kpc` must see the Array)"""
+
+    def __init__(self, v):
+        Sym.__init__(self, "BUF:" + v)
+        self._array = self.values = self.magnitude = Sym("RAW:" + v)
+
+
 def check_conditions_contract(run, tree):
     """Loader.load merges the dicts returned by the readers' make_conditions with dict.update and ANDs all values: what every reader returns
     must therefore be keyed so that no reader overwrites another's entry, and must hold each requested predicate applied to that reader's own
@@ -861,7 +867,7 @@ def check_conditions_contract(run, tree):
             run.analysed(tree.method(ci, "make_conditions"))
             r._attrs["ref"] = Sym("REF")
             for v in variables:
-                r._attrs["variables"][v]["buffer"] = Sym("BUF:" + v)
+                r._attrs["variables"][v]["buffer"] = BufTok(v)
             c = call(tree, hooks, ci, r, "make_conditions", dict(select))
             if not isinstance(c, dict):
                 problems.append("%s returns %r" % (name, c))
@@ -875,7 +881,8 @@ def check_conditions_contract(run, tree):
             for v in variables:
                 n_ = flat.count(repr(("pred", v, "BUF:" + v)))
                 if n_ != 1:
-                    problems.append("%s reader: the predicate on %s is applied to its buffer %d times (required once)" % (name, v, n_))
+                    problems.append("%s reader: the predicate on %s is applied to its unit-carrying buffer %d times (required once%s)" % (
+                        name, v, n_, "; it is applied to the raw numbers instead" if ("'RAW:%s'" % v) in flat else ""))
             for other, (_, ovars) in readers.items():
                 if other != name and any(("'pred', '%s'" % ov) in flat for ov in ovars):
                     problems.append("%s reader evaluates a predicate on a variable of the %s reader" % (name, other))
